@@ -137,6 +137,11 @@ var c07Shapes = map[string]c07Shape{
 		wants: []c07Want{{T: c07RDMA, Per: c07Res{c07Rdma: 100}, Count: 2}}},
 	"G1R1": {name: "G1R1", requests: corev1.ResourceList{apiext.ResourceGPU: c07Q(100), apiext.ResourceRDMA: c07Q(1)}, vfHint: true, joint: true,
 		wants: []c07Want{{T: c07GPU, Per: c07Res{c07Core: 100, c07Rat: 100}, Count: 1}, {T: c07RDMA, Per: c07Res{c07Rdma: 1}, Count: 1, VF: true}}},
+	// joint allocations of whole NICs (no VF): one / two NICs next to one GPU
+	"G1R100": {name: "G1R100", requests: corev1.ResourceList{apiext.ResourceGPU: c07Q(100), apiext.ResourceRDMA: c07Q(100)}, joint: true,
+		wants: []c07Want{{T: c07GPU, Per: c07Res{c07Core: 100, c07Rat: 100}, Count: 1}, {T: c07RDMA, Per: c07Res{c07Rdma: 100}, Count: 1}}},
+	"G1R200": {name: "G1R200", requests: corev1.ResourceList{apiext.ResourceGPU: c07Q(100), apiext.ResourceRDMA: c07Q(200)}, joint: true,
+		wants: []c07Want{{T: c07GPU, Per: c07Res{c07Core: 100, c07Rat: 100}, Count: 1}, {T: c07RDMA, Per: c07Res{c07Rdma: 100}, Count: 2}}},
 	"G50R1": {name: "G50R1", requests: corev1.ResourceList{apiext.ResourceGPU: c07Q(50), apiext.ResourceRDMA: c07Q(1)}, vfHint: true, joint: true,
 		wants: []c07Want{{T: c07GPU, Per: c07Res{c07Core: 50, c07Rat: 50}, Count: 1}, {T: c07RDMA, Per: c07Res{c07Rdma: 1}, Count: 1, VF: true}}},
 }
@@ -161,6 +166,7 @@ type c07Cfg struct {
 	gpus      int
 	topo      bool
 	rdma      int
+	rdmaPer   int    // NICs per PCIe switch (0 = 1): NIC i hangs off the switch of GPU i/rdmaPer
 	scorer    string // "", "least", "most"
 	filtered  bool   // Allocate with the (empty, non-nil) preemptible map Plugin.allocate passes -> nodeDevice.filter path
 	shapes    []string
@@ -190,7 +196,11 @@ func c07BaseDefs(cfg *c07Cfg) []c07DevDef {
 	}
 	for i := 0; i < cfg.rdma; i++ {
 		m := i + 1
-		d := c07DevDef{Dev: c07Dev{c07RDMA, m}, Healthy: true, Res: c07Res{c07Rdma: 100}, HasTopo: true, NUMA: int32(i / 2), PCIe: fmt.Sprint(i),
+		per := cfg.rdmaPer
+		if per == 0 {
+			per = 1
+		}
+		d := c07DevDef{Dev: c07Dev{c07RDMA, m}, Healthy: true, Res: c07Res{c07Rdma: 100}, HasTopo: true, NUMA: int32(i / per / 2), PCIe: fmt.Sprint(i / per),
 			VFs: []string{fmt.Sprintf("0000:%02d:00.2", m), fmt.Sprintf("0000:%02d:00.3", m)}}
 		out = append(out, d)
 	}
@@ -1475,6 +1485,11 @@ func c07Cfgs(env *mc.Env) []*c07Cfg {
 		{name: "hist-gpu2-rdma2-vf", gpus: 2, topo: true, rdma: 2, scorer: "least", filtered: true, shapes: []string{"R1VF", "G1R1", "G50R1", "R100", "R200"},
 			variants: []c07Variant{base, {"rdma1-unhealthy", c07VUnhealthy, r1}, {"rdma1-removed", c07VRemoved, r1}, {"gpu1-unhealthy", c07VUnhealthy, g1}},
 			pods:     3, depthQ: 4, depthT: 8, share: 0.24},
+		// two NICs behind the PCIe switch of GPU 0, one behind that of GPU 1: more NICs per switch than switches a
+		// one-GPU joint request selects
+		{name: "hist-gpu2-rdma3-shared-pcie", gpus: 2, topo: true, rdma: 3, rdmaPer: 2, scorer: "least", filtered: true,
+			shapes: []string{"R100", "G1R1", "G1R100", "G1R200"}, variants: []c07Variant{base, {"rdma1-unhealthy", c07VUnhealthy, r1}},
+			pods: 3, depthQ: 4, depthT: 7, share: 0.12},
 		{name: "hist-gpu2", gpus: 2, topo: true, scorer: "most", filtered: true, shapes: []string{"W1", "W2", "F50", "F25", "M2x50"},
 			variants: gpuVariants, pods: 3, unreserve: true, depthQ: 6, depthT: 10, share: 0.5},
 	}
